@@ -11,3 +11,7 @@ def run(prog, rep):
     r_unit.run_tables(prog, rep)
     r_unit.run_scaling(prog, rep)
     r_unit.run_sites(prog, rep)
+    from ..rules import r_flow as _rf
+    _rf.run_parallel(prog, rep)
+    from ..rules import r_unit as _ru
+    _ru.run_static_memo(prog, rep)
